@@ -2,7 +2,12 @@ import LicenseExpr.Props.C08
 #print axioms LE.C08_refl
 #print axioms LE.C08_symm
 #print axioms LE.C08_sound
+#print axioms LE.C08_rewrite
+#print axioms LE.C08_trans
 #print axioms LE.C08_instance
 #print axioms LE.C08_contains_refl
+#print axioms LE.containsE_congr
+#print axioms LE.C08_contains_congr
+#print axioms LE.C08_contains_rewrite
 #print axioms LE.C08_with_parts
 #print axioms LE.C08_contains_atoms_partial
